@@ -75,6 +75,8 @@ type serverPoolContext struct {
 	stdReq  *http.Request
 	resp    *httpprot.Response
 	stdResp *http.Response
+	// respBody is the callback reader wrapped around the body of stdResp
+	respBody *readers.CallbackReader
 }
 
 // Hop-by-hop headers. These are removed when sent to the backend.
@@ -394,7 +396,7 @@ func (sp *ServerPool) collectMetrics(spCtx *serverPoolContext) {
 	}
 
 	// Now, the body must be a CallbackReader.
-	body, _ := spCtx.stdResp.Body.(*readers.CallbackReader)
+	body := spCtx.respBody
 
 	// Collect when reach EOF or meet an error.
 	body.OnAfter(func(total int, p []byte, err error) {
@@ -577,6 +579,7 @@ func (sp *ServerPool) doHandle(stdctx stdcontext.Context, spCtx *serverPoolConte
 func (sp *ServerPool) buildResponse(spCtx *serverPoolContext) (err error) {
 	body := readers.NewCallbackReader(spCtx.stdResp.Body)
 	spCtx.stdResp.Body = body
+	spCtx.respBody = body
 
 	if sp.proxy.compression != nil {
 		if sp.proxy.compression.compress(spCtx.stdReq, spCtx.stdResp) {
